@@ -71,24 +71,37 @@ def run(chk):
     chk.assume("this check decides the binding structure of the language, not the numerical equality of every generated model")
 
 
+def _modifier(I, P, name):
+    """the modifier the package registers under `name`, through the registry's public [] -> (callable value, report site)"""
+    mr = I.instantiate(P.cls("atsim.potentials.config._modifier_registry", "Modifier_Registry"), [], {}, None)
+    v = I.getitem(mr, Const(name))
+    fi = getattr(v, "fi", None)
+    if fi is not None:
+        return v, fi.site()
+    ci = getattr(v, "ci", None)
+    if ci is not None:
+        return v, ci.site_of("__call__")
+    return v, P.module(MODS).relpath
+
+
 def modifiers(chk, P):
     r = ep.sym("r")
     f = [ep.app(("f", i), [r]) for i in range(3)]
     want = {"sum": f[0] + f[1] + f[2], "product": f[0] * f[1] * f[2], "pow": ep.pow_(ep.pow_(f[0], f[1]), f[2])}
     want2 = {"sum": f[0] + f[1], "product": f[0] * f[1], "pow": ep.pow_(f[0], f[1])}
     for name in ("sum", "product", "pow"):
-        fi = P.func(MODS, name)
         for n, w in ((2, want2[name]), (3, want[name])):
             I = F.make_interp(P)
+            mod, msite = _modifier(I, P, name)
             b = Builder()
             # the argument definitions as the parser delivers them: 'as.f<i> <i>' (one range, default marker)
             from ..eamrules import defn_value
             defs = [defn_value(I, P, ("as.f%d" % i, [i], (">", 0), None)) for i in range(n)]
-            res = I.run(fi, [ListV(list(defs), "list"), PyObjV(b)])
+            res = I.call(mod, [ListV(list(defs), "list"), PyObjV(b)], {})
             v = I.num(I.call(res, [Num(r)], {}))
             ok = ep.equal(v, w)[0] and [x.key() for x in b.seen] == [d.key() for d in defs]
             chk.ob("C09.O1", "%s(%s)(r) = %s, every argument built once, in order" % (name, ", ".join("f%d" % i for i in range(n)),
-                   {"sum": "+", "product": "*", "pow": "**"}[name].join("f%d(r)" % i for i in range(n))), ok, site=fi.site(),
+                   {"sum": "+", "product": "*", "pow": "**"}[name].join("f%d(r)" % i for i in range(n))), ok, site=msite,
                    found=v, expect=w, key="C09.O1|%s|%d" % (name, n))
     # the Python API combinators themselves
     for name, w in (("plus", f[0] + f[1]), ("product", f[0] * f[1]), ("pow", ep.pow_(f[0], f[1]))):
@@ -152,21 +165,21 @@ def modifiers_repeated(chk, P):
     # the same sub-definition given twice is two arguments (sum(f, f) = 2 f, product(f, f) = f^2), also when not adjacent
     mod = P.module("atsim.potentials.config._common")
     for name in ("sum", "product", "pow"):
-        fi = P.func(MODS, name)
         I = F.make_interp(P)
+        modv, msite = _modifier(I, P, name)
         pfi = I.module_global(mod, "PotentialFormInstanceTuple")
         same = lambda: I.call(pfi, [Const("as.polynomial"), ListV([Num(ep.const(0)), Num(ep.const(1))], "list"), NONE, NONE], {})
         other = I.call(pfi, [Const("as.constant"), ListV([Num(ep.const(2))], "list"), NONE, NONE], {})
         b = Builder()
         try:
-            res = I.run(fi, [ListV([same(), other, same()], "list"), PyObjV(b)])
+            res = I.call(modv, [ListV([same(), other, same()], "list"), PyObjV(b)], {})
             v = I.num(I.call(res, [Num(r)], {}))
             w = {"sum": f[0] + f[1] + f[2], "product": f[0] * f[1] * f[2], "pow": ep.pow_(ep.pow_(f[0], f[1]), f[2])}[name]
             ok = ep.equal(v, w)[0] and len(b.seen) == 3
             found = v
         except RaiseSignal as e:
             ok, found = False, e.exc
-        chk.ob("C09.O1", "%s(g, h, g) with the definition g written twice keeps three arguments" % name, ok, site=fi.site(), found=found,
+        chk.ob("C09.O1", "%s(g, h, g) with the definition g written twice keeps three arguments" % name, ok, site=msite, found=found,
                expect="three potentials reduced in order", key="C09.O1|%s|repeated-argument" % name)
 
 
@@ -176,13 +189,13 @@ def trans_value(chk, P):
     pfi = I.module_global(mod, "PotentialFormInstanceTuple")
     mrd = I.module_global(mod, "MultiRangeDefinitionTuple")
     later = I.call(pfi, [Const("as.zero"), ListV([], "list"), I.call(mrd, [Const(">="), Num(ep.const(2))], {}), NONE], {})
-    fi = P.func(MODS, "trans")
+    fi = F.modifier_ref(P, "trans")
     for what, first in (("a single-range definition", I.call(pfi, [Const("as.buck"), ListV([], "list"), NONE, NONE], {})),
                         ("a definition with a further range ('as.buck >=2 as.zero')",
                          I.call(pfi, [Const("as.buck"), ListV([], "list"), I.call(mrd, [Const(">"), Num(ep.const(0))], {}), later], {}))):
         second = I.call(pfi, [Const("as.constant"), ListV([Num(ep.sym("X"))], "list"), NONE, NONE], {})
         b = Builder()
-        t = I.run(fi, [ListV([first, second], "list"), PyObjV(b)])
+        t = fi.call(I, [ListV([first, second], "list"), PyObjV(b)])
         v = I.num(I.call(t, [Num(ep.sym("r"))], {}))
         w = ep.app(("f", 0), [ep.sym("r") + ep.sym("X")])
         ok = ep.equal(v, w)[0] and len(b.seen) == 1 and b.seen[0].key() == first.key()
